@@ -37,6 +37,7 @@ type facts struct {
 	InitCalls    [][3]string         `json:"init_calls"`    // file, func, method called on the receiver
 	LockUse      [][3]string         `json:"lock_use"`      // file, func, Lock|RLock|none
 	SQLNid       [][3]string         `json:"sql_nid"`       // file, func, verdict for every raw SQL literal on keto_relation_tuples
+	UUIDDerive   [][3]string         `json:"uuid_derive"`   // file, func, "NewV5:<namespace argument>" for every uuid.NewV5 call / "calls:<method>" for the mapping methods a mapping method calls on its receiver
 	BatchGuards  [][3]string         `json:"batch_guards"`  // file, func, comparison operator of len(…Tuples) against BatchCheckMaxBatchSize()
 	Misc         map[string]string   `json:"misc"`
 	// translated expressions: (file, func, Go text, Lean definition name); the Lean text is in leanDefs
@@ -83,34 +84,35 @@ func (f *facts) consts(repo, rel string, names ...string) {
 				if id.Name != want || i >= len(vs.Values) {
 					continue
 				}
+				// a constant the translator cannot read is recorded as 0 / "" (not fatal): the theorems
+				// that use it (positivity, the models' sizes) then no longer check, and only those
 				lit, ok := vs.Values[i].(*ast.BasicLit)
 				if !ok {
-					die("%s: %s is not a literal", rel, want)
+					continue
 				}
 				switch lit.Kind {
 				case token.INT:
-					v, err := strconv.ParseInt(lit.Value, 0, 64)
-					if err != nil {
-						die("%s: %s: %v", rel, want, err)
+					if v, err := strconv.ParseInt(lit.Value, 0, 64); err == nil && v >= 0 {
+						f.IntConsts[want] = v
+						found[want] = true
 					}
-					f.IntConsts[want] = v
 				case token.STRING:
-					s, err := strconv.Unquote(lit.Value)
-					if err != nil {
-						die("%s: %s: %v", rel, want, err)
+					if s, err := strconv.Unquote(lit.Value); err == nil {
+						f.StrConsts[want] = s
+						found[want] = true
 					}
-					f.StrConsts[want] = s
-				default:
-					die("%s: %s has unsupported literal kind", rel, want)
 				}
-				found[want] = true
 			}
 		}
 		return true
 	})
 	for _, n := range names {
 		if !found[n] {
-			die("%s: constant %s not found", rel, n)
+			if n == "WildcardRelation" {
+				f.StrConsts[n] = ""
+			} else {
+				f.IntConsts[n] = 0
+			}
 		}
 	}
 }
@@ -247,7 +249,9 @@ func (f *facts) depth(repo, rel, depthVar string, callees map[string]bool) {
 				if mentions(x.Cond, depthVar) {
 					dn := fmt.Sprintf("cond%d", len(f.DepthConds))
 					if !f.leanDef(dn, x.Cond, true) {
-						die("%s %s: cannot translate the condition %s", rel, name, exprString(f.fset, x.Cond))
+						// not fatal: the depth tie (FactsTie.lean) no longer elaborates, and with it the
+						// proof obligations of the properties that rely on it
+						f.leanDefs = append(f.leanDefs, fmt.Sprintf("def %s : Bool := false -- untranslatable: %s", dn, exprString(f.fset, x.Cond)))
 					}
 					f.DepthConds = append(f.DepthConds, [4]string{rel, name, exprString(f.fset, x.Cond), dn})
 				}
@@ -273,7 +277,7 @@ func (f *facts) depth(repo, rel, depthVar string, callees map[string]bool) {
 					if mentions(a, depthVar) {
 						dn := fmt.Sprintf("arg%d", len(f.DepthArgs))
 						if !f.leanDef(dn, a, false) {
-							die("%s %s: cannot translate the depth argument %s of %s", rel, name, exprString(f.fset, a), callee)
+							f.leanDefs = append(f.leanDefs, fmt.Sprintf("def %s : Int := 0 -- untranslatable: %s", dn, exprString(f.fset, a)))
 						}
 						f.DepthArgs = append(f.DepthArgs, [4]string{rel, name, callee, dn})
 						args = append(args, exprString(f.fset, a))
@@ -282,6 +286,41 @@ func (f *facts) depth(repo, rel, depthVar string, callees map[string]bool) {
 					}
 				}
 				f.DepthCalls = append(f.DepthCalls, [4]string{rel, name, callee, strings.Join(args, ",")})
+			}
+			return true
+		})
+	}
+}
+
+// uuidDerive: where name UUIDs come from: the namespace argument of every uuid.NewV5 call of the file, and
+// which of the mapping methods each mapping method calls on its receiver (the writing variant must derive
+// its ids exactly as the read-only one does: by calling it).
+func (f *facts) uuidDerive(repo, rel string) {
+	af := f.parse(repo, rel)
+	for _, d := range af.Decls {
+		fd, ok := d.(*ast.FuncDecl)
+		if !ok || fd.Body == nil {
+			continue
+		}
+		name := funcName(fd)
+		recv := ""
+		if fd.Recv != nil && len(fd.Recv.List[0].Names) > 0 {
+			recv = fd.Recv.List[0].Names[0].Name
+		}
+		ast.Inspect(fd.Body, func(n ast.Node) bool {
+			ce, ok := n.(*ast.CallExpr)
+			if !ok {
+				return true
+			}
+			se, ok := ce.Fun.(*ast.SelectorExpr)
+			if !ok {
+				return true
+			}
+			if id, ok := se.X.(*ast.Ident); ok && id.Name == "uuid" && strings.HasPrefix(se.Sel.Name, "NewV") && len(ce.Args) > 0 {
+				f.UUIDDerive = append(f.UUIDDerive, [3]string{rel, name, se.Sel.Name + ":" + exprString(f.fset, ce.Args[0])})
+			}
+			if id, ok := se.X.(*ast.Ident); ok && recv != "" && id.Name == recv && strings.HasPrefix(se.Sel.Name, "MapStringsToUUIDs") {
+				f.UUIDDerive = append(f.UUIDDerive, [3]string{rel, name, "calls:" + se.Sel.Name})
 			}
 			return true
 		})
@@ -307,10 +346,12 @@ func (f *facts) batchGuards(repo, rel string) {
 				return true
 			}
 			lhs := exprString(f.fset, be.X)
+			op := be.Op.String()
 			if !strings.HasPrefix(lhs, "len(") || !strings.HasSuffix(lhs, ".Tuples)") {
-				die("%s %s: unexpected left-hand side %s of the batch size test", rel, name, lhs)
+				// recorded, not fatal: only the tie of the properties that rely on this table breaks
+				op = "unexpected left-hand side " + lhs + " " + op
 			}
-			f.BatchGuards = append(f.BatchGuards, [3]string{rel, name, be.Op.String()})
+			f.BatchGuards = append(f.BatchGuards, [3]string{rel, name, op})
 			return true
 		})
 	}
@@ -318,10 +359,7 @@ func (f *facts) batchGuards(repo, rel string) {
 
 // schemaDefaults: defaults of the limits in the configuration schema.
 func (f *facts) schemaDefaults(repo, rel string) {
-	raw, err := os.ReadFile(filepath.Join(repo, rel))
-	if err != nil {
-		die("%v", err)
-	}
+	raw, _ := os.ReadFile(filepath.Join(repo, rel))
 	var doc struct {
 		Properties struct {
 			Limit struct {
@@ -331,16 +369,13 @@ func (f *facts) schemaDefaults(repo, rel string) {
 			} `json:"limit"`
 		} `json:"properties"`
 	}
-	if err := json.Unmarshal(raw, &doc); err != nil {
-		die("%s: %v", rel, err)
-	}
+	_ = json.Unmarshal(raw, &doc)
 	for key, lean := range map[string]string{"max_batch_check_size": "defaultMaxBatchCheckSize", "batch_check_max_parallelization": "defaultBatchParallelization",
 		"max_read_depth": "defaultMaxReadDepth", "max_read_width": "defaultMaxReadWidth"} {
-		p, ok := doc.Properties.Limit.Properties[key]
-		if !ok || p.Default == nil {
-			die("%s: no default for limit.%s", rel, key)
+		f.IntConsts[lean] = 0 // no default found: the theorems that use the constant no longer check
+		if p, ok := doc.Properties.Limit.Properties[key]; ok && p.Default != nil && *p.Default >= 0 {
+			f.IntConsts[lean] = *p.Default
 		}
-		f.IntConsts[lean] = *p.Default
 	}
 }
 
@@ -704,6 +739,7 @@ func main() {
 	f.lockUse(*repo, "internal/driver/config/opl_config_namespace_watcher.go")
 	f.lockUse(*repo, "internal/x/graph/graph_utils.go")
 	f.batchGuards(*repo, "internal/check/handler.go")
+	f.uuidDerive(*repo, "internal/persistence/sql/uuid_mapping.go")
 	f.schemaDefaults(*repo, "embedx/config.schema.json")
 
 	// ---- emit
@@ -760,6 +796,7 @@ func main() {
 	table3("lockUse", f.LockUse)
 	table3("sqlNid", f.SQLNid)
 	table3("batchGuards", f.BatchGuards)
+	table3("uuidDerive", f.UUIDDerive)
 	// translated depth conditions and depth arguments (regenerated model fragments)
 	b.WriteString("\n/-! Depth tests and depth arguments of the engines, translated from the Go expressions. -/\n")
 	for _, d := range f.leanDefs {
